@@ -219,6 +219,38 @@ var termPkgCalls = map[string]func(ctx context.Context, m string, a ...any){
 
 var termStdLevel = map[int]logslog.Level{5: logslog.LevelDebug, 4: logslog.LevelInfo, 3: logslog.LevelWarn, 2: logslog.LevelError}
 
+// termInstallFlags brings the global flags to f in one of the ways the API offers, chosen by the
+// cell number: SetFlags; ResetFlags + Remove/AddFlags; Remove/AddFlags relative to the current
+// value; or a SaveFlagsAndMod scope that is left through its restore function before the next
+// cell is prepared.  When the flags already have the value the cell needs nothing is called at
+// all, so a cell may run on flags that were re-installed by leaving a scope.
+var termPendingRestore func()
+
+func termInstallFlags(id int, f slog.Flags) {
+	if termPendingRestore != nil {
+		termPendingRestore()
+		termPendingRestore = nil
+	}
+	cur := slog.GetFlags()
+	switch {
+	case cur == f:
+	case id%4 == 0:
+		slog.SetFlags(f)
+	case id%4 == 1:
+		slog.ResetFlags()
+		slog.RemoveFlags(slog.GetFlags() &^ f)
+		slog.AddFlags(f)
+	case id%4 == 2:
+		slog.RemoveFlags(cur &^ f)
+		slog.AddFlags(f &^ cur)
+	default:
+		termPendingRestore = slog.SaveFlagsAndMod(f&^cur, cur&^f)
+	}
+	if slog.GetFlags() != f { // the API did not produce what was asked for: fall back, the cell decides on f
+		slog.SetFlags(f)
+	}
+}
+
 // termPrepare configures the process and a fresh logger as the cell says and returns the call.
 func termPrepare(lg *termLog, c termCell, msg string) (call func(), err error) {
 	f := termBaseFlags(c.Base)
@@ -228,7 +260,7 @@ func termPrepare(lg *termLog, c termCell, msg string) (call func(), err error) {
 	if c.Ia {
 		f |= slog.Linterruptalways
 	}
-	slog.SetFlags(f)
+	termInstallFlags(c.ID, f)
 
 	// package defaults are recorded as well, whatever the routing (C03 is not this property's business)
 	dw := slog.GetDefaultWriter().(interface {
